@@ -12,6 +12,7 @@ ROOT = os.path.dirname(os.path.abspath(__file__))
 LEAN = os.path.join(ROOT, "lean")
 HARNESS_SRC = os.path.join(ROOT, "go", "harness")
 EXTRACT_SRC = os.path.join(ROOT, "go", "extract")
+TRANSLATE_SRC = os.path.join(ROOT, "go", "translate")
 WORK = os.path.join(ROOT, "work")
 BIN = os.path.join(ROOT, "bin")
 REPO = os.environ.get("VERIF_REPO", "/repo")
@@ -49,6 +50,29 @@ def regen_facts():
         with open(target, "w") as f:
             f.write(r.stdout)
     return True, ""
+
+
+def regen_trans():
+    """Go-to-Lean translator (go/translate) -> lean/Pw/Generated/Trans.lean: pkg/buffer as executable Lean
+    definitions, re-derived from the working tree on every run (only rewritten when changed)."""
+    exe = os.path.join(BIN, "pwtranslate")
+    r = sh(["go", "build", "-o", exe, "."], cwd=TRANSLATE_SRC, env=GOENV)
+    if r.returncode != 0:
+        return False, "translator build failed:\n" + r.stdout
+    r = subprocess.run([exe, REPO], stdout=subprocess.PIPE, stderr=subprocess.PIPE, text=True, env=GOENV)
+    target = os.path.join(LEAN, "Pw", "Generated", "Trans.lean")
+    if r.returncode != 0:
+        # the package no longer parses / type-checks for the translator: leave a stub so that the tie modules fail
+        out = "/- GENERATED: translation failed -/\nimport Pw.Go.Rt\nnamespace Pw.Trans\ndef untranslatable : List String := [\"translator failed\"]\nend Pw.Trans\n"
+        msg = "translator failed:\n" + r.stderr[-1500:]
+    else:
+        out, msg = r.stdout, ""
+    old = open(target).read() if os.path.exists(target) else None
+    if old != out:
+        os.makedirs(os.path.dirname(target), exist_ok=True)
+        with open(target, "w") as f:
+            f.write(out)
+    return r.returncode == 0, msg
 
 
 def lake_build(targets):
@@ -107,11 +131,11 @@ def grep_forbidden():
 ALLOWED_AXIOMS = {"propext", "Quot.sound", "Classical.choice"}
 
 
-def audit_axioms(module, theorems):
+def audit_axioms(module, theorems, extra_modules=()):
     """#print axioms for every property theorem; returns (ok, report, per-theorem axioms)."""
     if not theorems:
         return True, "", {}
-    src = "import %s\n" % module + "".join("#print axioms %s\n" % t for t in theorems)
+    src = "import %s\n" % module + "".join("import %s\n" % m for m in extra_modules) + "".join("#print axioms %s\n" % t for t in theorems)
     path = os.path.join(WORK, "audit_%s.lean" % module.replace(".", "_"))
     with open(path, "w") as f:
         f.write(src)
